@@ -28,8 +28,8 @@ GRIDS = [
     {"gpts": [48, 144], "sampling": [0.25, 0.25]},  # extent 12 x 36 A: angular pixel 3.1 x 1.0 mrad at 100 keV
 ]
 CUTOFFS = [2.0, 10.0, 20.5, 500.0, "inf", "dist"]
-FOCAL = [0.0, 10.0, 80.0, "dist"]
-ANGULAR = [0.0, 0.5, 3.0, "dist"]
+FOCAL = [0.0, 10.0, 80.0, "dist", "wdist", "gdist"]  # dist: unit weights; wdist: weights (2, 1); gdist: Gaussian weights < 1
+ANGULAR = [0.0, 0.5, 3.0, "dist", "wdist", "gdist"]
 ABERR = [
     {},
     {"C10": 150.0},
@@ -65,10 +65,20 @@ def dist(kind):
 
     if kind == "cutoff":
         return abtem.distributions.from_values([8.0, 14.5, 30.0])
+    import numpy as _np
+
     if kind == "focal":
         return abtem.distributions.from_values([5.0, 40.0])
     if kind == "angular":
         return abtem.distributions.from_values([0.3, 2.0])
+    if kind == "focal-w":
+        return abtem.distributions.from_values([5.0, 40.0], weights=_np.array([2.0, 1.0]))
+    if kind == "angular-w":
+        return abtem.distributions.from_values([0.3, 2.0], weights=_np.array([2.0, 1.0]))
+    if kind == "focal-g":
+        return abtem.distributions.gaussian(10.0, 3, center=40.0)
+    if kind == "angular-g":
+        return abtem.distributions.gaussian(0.4, 3, center=1.5)
     return abtem.distributions.gaussian(30.0, 3, center=100.0, ensemble_mean=False)
 
 
@@ -166,7 +176,7 @@ def run_case(case):
         obs = "%.4g" % float(k.mean())
     elif case["kind"] == "temporal":
         f = FOCAL[case["focal"]]
-        env = TemporalEnvelope(dist("focal") if f == "dist" else f, **gk)
+        env = TemporalEnvelope(({"dist": dist("focal"), "wdist": dist("focal-w"), "gdist": dist("focal-g")}[f] if isinstance(f, str) else f), **gk)
         k = np.asarray(env._evaluate_kernel())
         if k.min() < 0 or k.max() > 1 + 1e-6 or not np.isfinite(k).all():
             bad("temporal/range", "temporal envelope outside [0,1]: %r %r" % (float(k.min()), float(k.max())))
@@ -177,7 +187,7 @@ def run_case(case):
     elif case["kind"] == "spatial":
         a = ANGULAR[case["angular"]]
         ab = {s: (dist("C10") if v == "dist" else v) for s, v in ABERR[case["aberr"]].items()}
-        env = SpatialEnvelope(dist("angular") if a == "dist" else a, aberration_coefficients=ab, **gk)
+        env = SpatialEnvelope(({"dist": dist("angular"), "wdist": dist("angular-w"), "gdist": dist("angular-g")}[a] if isinstance(a, str) else a), aberration_coefficients=ab, **gk)
         k = np.asarray(env._evaluate_kernel())
         if k.min() < 0 or k.max() > 1 + 1e-6 or not np.isfinite(k).all():
             bad("spatial/range", "spatial envelope outside [0,1]: %r %r" % (float(k.min()), float(k.max())))
@@ -190,8 +200,8 @@ def run_case(case):
         f = FOCAL[case["focal"]]
         a = ANGULAR[case["angular"]]
         ab = {s: (dist("C10") if v == "dist" else v) for s, v in ABERR[case["aberr"]].items()}
-        ctf = CTF(semiangle_cutoff=c, soft=case["soft"], focal_spread=dist("focal") if f == "dist" else f,
-                  angular_spread=dist("angular") if a == "dist" else a, aberration_coefficients=ab, flip_phase=case["flip"], **gk)
+        ctf = CTF(semiangle_cutoff=c, soft=case["soft"], focal_spread=({"dist": dist("focal"), "wdist": dist("focal-w"), "gdist": dist("focal-g")}[f] if isinstance(f, str) else f),
+                  angular_spread=({"dist": dist("angular"), "wdist": dist("angular-w"), "gdist": dist("angular-g")}[a] if isinstance(a, str) else a), aberration_coefficients=ab, flip_phase=case["flip"], **gk)
         k = np.asarray(ctf._evaluate_kernel())
         if not np.isfinite(k).all():
             bad("ctf/nan", "CTF kernel has non-finite values")
